@@ -136,7 +136,8 @@ def shard(shard_no, nshards, seed, tier, extra):
                 br_a, br_b = frag(gt_a, sa), frag(gt_b, sb)
                 kind = "layoutgen"
             else:
-                br_a, br_b = progs.evidence_branches(rng, slots_a), progs.evidence_branches(rng, slots_b)
+                br_a = progs.evidence_branches(rng, slots_a, foreign=slots_b)
+                br_b = progs.evidence_branches(rng, slots_b, foreign=slots_a)
                 kind = "evidence"
             shape = rng.choice(["chain", "split", "fallthrough"])
             code_a = progs.dispatcher(br_a, rng.choice(["chain", "split"]), salt=1)
@@ -201,7 +202,7 @@ def run(tier, seed, t0):
     res = common.Result.merge(common.run_sharded(shard, seed, tier))
     return common.finish(
         PROP, tier, seed, res, "exploration",
-        "pairs of fragments over disjoint slot sets (ground-truth idioms, or 1-3 pieces of mixed evidence per slot) "
+        "pairs of fragments over disjoint slot sets (ground-truth idioms, or 1-3 pieces of mixed evidence per slot, including the other fragment's slot numbers used as plain constants: words of 3-4 word hashes, mapping keys, values, memory offsets) "
         "analysed alone and together behind a dispatcher (compare chain / binary split / fall-through default, branches "
         "interleaved in random order); programs and their images under injective slot renumberings (small to small, "
         "small to 2^16..2^64, small to > 2^130: PUSH widths and all offsets change). Each program under 3 hash seeds "
